@@ -354,7 +354,7 @@ pub fn run(ctx: &Ctx) -> i32 {
     let tier = ctx.tier;
     let n_codec = 2;
     let n_huge = tier.pick(6, 40);
-    let n = tier.pick(1_200, 30_000);
+    let n = tier.pick(8_000, 200_000);
     let cfg = RunCfg {
         property: "C15",
         tier,
